@@ -54,13 +54,16 @@ def restoreOld (cur : AMap) (u : Undo) : AMap := u.foldl undo1 cur
 /-- the events of `setVarIdPass1` that touch the `VariableMap`.
 `decl x g` = `addVariable(x, g)` (g = `scopeStack.size() <= 1`: not inside any braces) followed by the declared
 name token receiving the new id; `use x` = a name token looked up in `map(false)`; `guse x` = `::x`, looked up in
-`map(true)`. -/
+`map(true)`.  `skip`/`hide` are the two halves of `enum { x = e }`: the enumerator token keeps varid 0 (the isEnum test
+in setVarIdPass1) and, after its initialiser, the NAME is in scope as a non-variable — the `VariableMap` is not told. -/
 inductive Op
   | enter
   | leave
   | decl (x : VName) (g : Bool)
   | use (x : VName)
   | guse (x : VName)
+  | skip                    -- a name token setVarIdPass1 deliberately leaves without id (an enumerator being defined)
+  | hide (x : VName)        -- an enumerator `x` becomes visible: invisible to `VariableMap`, a binding for lexical scoping
   deriving DecidableEq, Repr
 
 structure VarMap where
@@ -92,12 +95,15 @@ def stepWith (rs : AMap → Undo → AMap) (m : VarMap) : Op → VarMap
   | .decl x g => m.addVariable x g
   | .use _ => m
   | .guse _ => m
+  | .skip => m
+  | .hide _ => m                                -- the table never learns about enumerators (finding F18)
 
 /-- the ids written to name tokens by one event (0 = the token keeps varid 0) -/
 def emit (m : VarMap) : Op → List VId
   | .decl _ _ => [m.next + 1]
   | .use x => [(lookup m.cur x).getD 0]
   | .guse x => [(lookup m.glob x).getD 0]
+  | .skip => [0]
   | _ => []
 
 def step : VarMap → Op → VarMap := stepWith restore
@@ -151,11 +157,18 @@ def sstep (s : Spec) : Op → Spec
     | sc :: r => { s with inner := setv sc x (s.next + 1) :: r, next := s.next + 1 }
   | .use _ => s
   | .guse _ => s
+  | .skip => s
+  -- an enumerator is bound in the enclosing scope as a NON-variable: id 0 (ids of variables start at 1)
+  | .hide x =>
+    match s.inner with
+    | [] => { s with glob := setv s.glob x 0 }
+    | sc :: r => { s with inner := setv sc x 0 :: r }
 
 def semit (s : Spec) : Op → List VId
   | .decl _ _ => [s.next + 1]
   | .use x => [(slookup s.inner s.glob x).getD 0]
   | .guse x => [(lookup s.glob x).getD 0]
+  | .skip => [0]
   | _ => []
 
 def sexec (s : Spec) (ops : List Op) : Spec := ops.foldl sstep s
@@ -174,11 +187,19 @@ def globalOK : Nat → List VName → List Op → Bool
   | d, fs, .decl x g :: r => if d = 0 then g && globalOK d (x :: fs) r else globalOK d fs r
   | d, fs, .use _ :: r => globalOK d fs r
   | d, fs, .guse x :: r => fs.contains x && globalOK d fs r
+  | d, fs, .skip :: r => globalOK d fs r
+  | d, fs, .hide _ :: r => globalOK d fs r
 
 def noGuse : List Op → Bool
   | [] => true
   | .guse _ :: _ => false
   | _ :: r => noGuse r
+
+/-- event lists without enumerator events (the op language of DESIGN.md Appendix A plus uses) -/
+def noHide : List Op → Bool
+  | [] => true
+  | .hide _ :: _ => false
+  | _ :: r => noHide r
 
 /-- classifier of finding F4: some scope with an undo log declares one name twice (`st` = names declared so far
 in each open scope, innermost first) -/
@@ -190,5 +211,17 @@ def dupInScope : List (List VName) → List Op → Bool
   | sc :: st, .decl x _ :: r => sc.contains x || dupInScope ((x :: sc) :: st) r
   | st, .use _ :: r => dupInScope st r
   | st, .guse _ :: r => dupInScope st r
+  | st, .skip :: r => dupInScope st r
+  | st, .hide _ :: r => dupInScope st r
+
+/-- Hypothesis of the partial theorems (decidable; evaluated along the specification): whenever an enumerator `x`
+becomes visible, no VARIABLE named `x` is visible at that point.  The excluded programs are exactly those in which an
+enumerator hides a variable (finding F18: `int x; int f(void){ enum { x = 5 }; return x; }`). -/
+def noVarHidden : Spec → List Op → Bool
+  | _, [] => true
+  | s, o :: r =>
+    (match o with
+     | .hide x => (slookup s.inner s.glob x).getD 0 == 0
+     | _ => true) && noVarHidden (sstep s o) r
 
 end Cppcheck.VarMap
